@@ -6,6 +6,7 @@ import SfntV.Proofs.Cmapx12
 import SfntV.Proofs.Cmapx06
 import SfntV.Proofs.CmapxTable
 import SfntV.Proofs.CmapxRT
+import SfntV.Proofs.CmapxMac
 
 namespace SfntV.C09b
 open SfntV SfntV.Cmap12 SfntV.Cmap06
@@ -280,12 +281,22 @@ theorem C09_get_no_panic (dec4 : Bytes → Bool → Outcome (List (Nat × Nat)))
       simp only []
       unfold decodeSub
       split
-      · unfold Cmap06.decode0
-        rw [if_neg (by omega)]
-        dsimp only
-        by_cases hl : (List.drop 6 d).length ≠ 256
-        · rw [if_pos hl]; trivial
-        · rw [if_neg hl]; trivial
+      · have h0 : ∀ m, Cmap06.decode0 d ≠ .panic m := by
+          intro m
+          unfold Cmap06.decode0
+          rw [if_neg (by omega)]
+          dsimp only
+          split <;> simp
+        split
+        · unfold Cmap06.decode0c2r
+          cases hd0 : Cmap06.decode0 d with
+          | ok x => trivial
+          | err e => trivial
+          | panic m => exact absurd hd0 (h0 m)
+        · cases hd0 : Cmap06.decode0 d with
+          | ok x => trivial
+          | err e => trivial
+          | panic m => exact absurd hd0 (h0 m)
       · split
         · have := h4 d (decide (key.p = 1))
           cases hd : dec4 d (decide (key.p = 1)) with
@@ -484,6 +495,146 @@ theorem C09_generated_facts :
     Gen.decode12Literals.count 65536 = 1 ∧ Gen.decode12Literals.count 4294967295 = 1 ∧
     Gen.decode6Literals.count 65536 = 1 ∧ Gen.cmapxMacDec.length = 128 := by
   refine ⟨by decide, by decide, by decide, by decide, by decide, by decide, by decide, ?_, ?_, ?_, ?_, ?_, ?_⟩ <;> rfl
+
+/-! ## the Macintosh platform: decoders composed with the MacRoman table -/
+
+open SfntV.CmapTable in
+/-- **The MacRoman table is injective.**  The 256-entry code → rune table regenerated from
+mac/encoding.go (`mac.DecodeOne`, the `code2rune` that `Table.Get` passes to every decoder for
+platform 1 / encoding 0 — shape of that source checked by the extractor) has 256 pairwise different
+BMP entries, so at most one MacRoman code has a given Unicode character and "which code wins" does not
+arise for codes below 256. -/
+theorem C09_macroman_injective :
+    Gen.macRomanTable.length = 256 ∧ Gen.getMacClosureShape = true ∧
+    (∀ a b, a < 256 → b < 256 → macRoman a = macRoman b → a = b) ∧ (∀ a, macRoman a < 65536) ∧
+    (∀ a, macRoman a = macRoman (a % 256)) :=
+  ⟨macTable_length, by decide, macRoman_inj, macRoman_lt, by intro a; unfold macRoman; rw [Nat.mod_mod]⟩
+
+open SfntV.CmapTable in
+/-- **Subtables under a Macintosh key decode to the specification's mapping composed with
+MacRoman.**  For every table and key with platform 1 on which (the model of) `Table.Get` succeeds
+(format 4 decoded by the model of Model/Cmap4.lean): the encoding id is 0, and `Lookup(r)` of the
+result is, for EVERY rune `r ≥ 0`, the glyph that the OpenType specification of the subtable's format
+assigns to the MacRoman code `c < 256` whose character is `r` — glyph 0 if MacRoman has no such
+character — for
+* format 0 (after repair 0c896bc), unconditionally;
+* format 6 whose range `firstCode + entryCount` stays within the 256 single-byte codes;
+* format 4 whenever the decoder wrote no code above 255.
+(Codes above 255 do not exist in MacRoman; what the library does with them is `C09_mac_high_codes`.) -/
+theorem C09_mac_decoders (t : Table) (key : Key) (d : Bytes) (s : Sub) (hp : key.p = 1)
+    (hd : tableGet t key = some d) (hs : CmapTable.get (dec4Of Cmap4.decode) t key = .ok s) :
+    key.e = 0 ∧
+    (rd16 d 0 = .ok 0 → ∀ r, s.lookup r = specRune macRoman (spec0 d) r) ∧
+    (rd16 d 0 = .ok 6 → u16At d 6 + u16At d 8 ≤ 256 → ∀ r, s.lookup r = specRune macRoman (spec6 d) r) ∧
+    (rd16 d 0 = .ok 4 → (∀ ws, Cmap4.decode d = some ws → ∀ w ∈ ws, w.1 < 256) →
+      ∀ r, s.lookup r = specRune macRoman (Cmap4.specLookupBytes d) r) := by
+  -- runes outside the BMP: both sides are 0
+  have hbig : ∀ (f : Nat → Nat) r, 65536 ≤ r → specRune macRoman f r = 0 := by
+    intro f r hr
+    cases hf : (List.range 256).find? (fun c => macRoman c == r) with
+    | none => exact (specRune_none macRoman f r hf).1
+    | some c =>
+      have := (specRune_some macRoman f r c hf).2.2
+      have := macRoman_lt c
+      omega
+  unfold CmapTable.get at hs
+  rw [hd] at hs
+  dsimp only at hs
+  by_cases hmac : key.p = 1 ∧ key.e ≠ 0
+  · rw [if_pos hmac] at hs; cases hs
+  rw [if_neg hmac] at hs
+  have he : key.e = 0 := by
+    false_or_by_contra
+    rename_i hne
+    exact hmac ⟨hp, hne⟩
+  have hdec : decide (key.p = 1) = true := by simp [hp]
+  refine ⟨he, ?_, ?_, ?_⟩
+  · intro hf
+    rw [hf] at hs
+    simp only [decodeSub, hdec, if_true] at hs
+    cases h0 : decode0c2r macRoman d with
+    | err e => rw [h0] at hs; cases hs
+    | panic e => rw [h0] at hs; cases hs
+    | ok ws =>
+      rw [h0] at hs
+      cases hs
+      obtain ⟨d0, hd0, hws⟩ := decode0c2r_eq macRoman d ws h0
+      intro r
+      show lookup16 ws r = _
+      unfold lookup16
+      by_cases hr : r < 65536
+      · rw [if_pos hr, hws, lastWrite_map_inj macRoman macRoman_inj macRoman_lt r _
+          (fun w hw => by have := writes0_keys d0 256 0 w hw; omega)]
+        apply specRune_congr
+        intro c hc
+        rw [lastWrite_writes0, if_pos (by omega)]
+        have := C09_impl_eq_spec_0 d d0 hd0 c
+        unfold lookup0 at this
+        rw [if_neg (by omega)] at this
+        exact this
+      · rw [if_neg hr, hbig _ r (by omega)]
+  · intro hf hrange
+    rw [hf] at hs
+    simp only [decodeSub, hdec, if_true] at hs
+    cases h6 : decode6 d macRoman with
+    | err => rw [h6] at hs; cases hs
+    | ok ws =>
+      rw [h6] at hs
+      cases hs
+      obtain ⟨ws0, hws0, hws, hkeys⟩ := decode6_c2r macRoman d ws h6
+      intro r
+      show lookup16 ws r = _
+      unfold lookup16
+      by_cases hr : r < 65536
+      · rw [if_pos hr, hws, lastWrite_map_inj macRoman macRoman_inj macRoman_lt r _
+          (fun w hw => by have := hkeys w hw; omega)]
+        apply specRune_congr
+        intro c hc
+        have := C09_impl_eq_spec_6 d ws0 hws0 c
+        unfold lookup16 at this
+        rw [if_pos (by omega)] at this
+        exact this
+      · rw [if_neg hr, hbig _ r (by omega)]
+  · intro hf hcodes
+    rw [hf] at hs
+    simp only [decodeSub, hdec] at hs
+    unfold dec4Of at hs
+    cases h4 : Cmap4.decode d with
+    | none => rw [h4] at hs; cases hs
+    | some ws =>
+      rw [h4] at hs
+      simp only [if_true] at hs
+      cases hs
+      intro r
+      show (if r < 65536 then Cmap4.alistGet _ r else 0) = _
+      by_cases hr : r < 65536
+      · rw [if_pos hr, alistGet_map_inj macRoman macRoman_inj macRoman_lt r ws (hcodes ws h4)]
+        apply specRune_congr
+        intro c hc
+        exact Cmap4.decode_eq_spec d ws h4 c (by omega)
+      · rw [if_neg hr, hbig _ r (by omega)]
+
+open SfntV.CmapTable in
+/-- **What happens to codes above 255 under a Macintosh key** (behaviour recorded, not specified:
+MacRoman is a single-byte encoding).  `Table.Get` converts with `mac.DecodeOne(byte(code))`, so a code
+`c ≥ 256` of a format 4 or 6 subtable is written to the character of its LOW BYTE, after (and over)
+the codes below it: with the format 6 subtable firstCode = 0x41, 257 entries, 'A' = glyph 1 and code
+0x141 = glyph 9, `Lookup('A')` is 9. -/
+theorem C09_mac_high_codes :
+    let sub : Bytes := [0, 6, 2, 12, 0, 0, 0, 65, 1, 1, 0, 1] ++ List.replicate 510 0 ++ [0, 9]
+    decode6 sub macRoman = .ok [(65, 1), (65, 9)] ∧ lookup16 [(65, 1), (65, 9)] 65 = 9 ∧
+    specRune macRoman (spec6 sub) 65 = 1 := by
+  decide +kernel
+
+/-- the input of the repaired finding C09-mac-format0: glyphIdArray[c] = c -/
+def exMac0 : Bytes := [0, 0, 1, 6, 0, 0] ++ (List.range 256).map UInt8.ofNat
+
+/-- Get succeeds on it under the key (1,0,0), and U+00E9 'é' (MacRoman 0x8E) gets glyph 142, U+00C4
+(MacRoman 0x80) glyph 128, U+008E (not in MacRoman) glyph 0, U+2020 '†' (MacRoman 0xA0) glyph 160 —
+the values the library returned 233, 196, 142, 0 for before repair 0c896bc. -/
+example : ∃ s, CmapTable.get (CmapTable.dec4Of Cmap4.decode) [(⟨1, 0, 0⟩, exMac0)] ⟨1, 0, 0⟩ = .ok s ∧
+    [65, 233, 196, 142, 8224].map s.lookup = [65, 142, 128, 0, 160] := by
+  refine ⟨.f6 ((List.range' 1 255).map fun c => (CmapTable.macRoman c, c)), by decide +kernel, by decide +kernel⟩
 
 /-! ## non-vacuity and the counterexamples that forced the repairs -/
 
